@@ -145,6 +145,42 @@ pub fn run(ctx: &Ctx, out: &mut Out) {
             cases.push(Case { vers: vec![DRAFT13], srv: Some(s.clone()), srv_mode: "wrong", data: req::ietf_request(&[DRAFT13], Some(&s), &rng.bytes(32), 1024) });
             out.obs("srv_bit_flips", 1);
         }
+        // the same bit flipped in two different bytes (differences that cancel under XOR / sum),
+        // and random multi-bit corruptions
+        for a in 0..32usize {
+            for b in (a + 1)..32 {
+                let bit = (a * 7 + b) % 8;
+                let mut s = my_srv.clone();
+                s[a] ^= 1 << bit;
+                s[b] ^= 1 << bit;
+                cases.push(Case { vers: vec![DRAFT13], srv: Some(s.clone()), srv_mode: "wrong", data: req::ietf_request(&[DRAFT13], Some(&s), &rng.bytes(32), 1024) });
+                out.obs("srv_two_bit_flips", 1);
+            }
+        }
+        for _ in 0..600 {
+            let mut s = my_srv.clone();
+            for _ in 0..rng.range(2, 6) {
+                let i = rng.usize_below(32);
+                s[i] ^= 1 << rng.below(8);
+            }
+            if s != my_srv {
+                cases.push(Case { vers: vec![DRAFT13], srv: Some(s.clone()), srv_mode: "wrong", data: req::ietf_request(&[DRAFT13], Some(&s), &rng.bytes(32), 1024) });
+            }
+        }
+        // two bytes swapped / rotated value / reversed value
+        {
+            let mut s = my_srv.clone();
+            s.swap(0, 31);
+            let mut r = my_srv.clone();
+            r.rotate_left(1);
+            let mut v = my_srv.clone();
+            v.reverse();
+            for s in [s, r, v] {
+                if s != my_srv {
+                    cases.push(Case { vers: vec![DRAFT13], srv: Some(s.clone()), srv_mode: "wrong", data: req::ietf_request(&[DRAFT13], Some(&s), &rng.bytes(32), 1024) });
+                }
+            }
+        }
         for l in [0usize, 4, 28, 36, 64] {
             let mut s = my_srv.clone();
             s.resize(l, 0xaa);
@@ -165,6 +201,18 @@ pub fn run(ctx: &Ctx, out: &mut Out) {
             out.case(crate::prng::fnv64(&c.data), true);
         }
         judge(out, &cfg, &mut d, cases);
+        // requests that name no version in their own bytes, sent right after a long request whose
+        // padding is full of draft-13 version words (a reused receive buffer must not lend them one)
+        for _ in 0..6 {
+            let (first, seconds) = stale_buffer_probe(&mut rng);
+            let mut cases = vec![Case { vers: vec![DRAFT13], srv: None, srv_mode: "absent", data: first }];
+            for sdg in seconds {
+                out.case(crate::prng::fnv64(&sdg), true);
+                out.obs("stale_buffer_cases", 1);
+                cases.push(Case { vers: vec![], srv: None, srv_mode: "absent", data: sdg });
+            }
+            judge(out, &cfg, &mut d, cases);
+        }
     }
     if !ctx.time_left() {
         break;
